@@ -60,15 +60,12 @@ def rule_seq(ctx, R):
         if calls:
             ctxattr = "macContext" if nm in ("_macThenEncrypt", "_encryptThenMAC", "_decryptStreamThenMAC",
                                              "_macThenDecrypt") else None
+            from ..query import falsy_edges
             cut = set()
             if ctxattr:
-                for t in g.nodes:
-                    if t.kind == "test" and norm(t.expr) == "self.%s.%s" % (side, ctxattr):
-                        cut.add((t.id, "F"))
+                cut |= falsy_edges(g, "self.%s.%s" % (side, ctxattr))     # paths on which a MAC context exists
             if nm == "_decryptThenMAC":
-                for t in g.nodes:
-                    if t.kind == "test" and norm(t.expr) == "self._readState.encContext":
-                        cut.add((t.id, "F"))
+                cut |= falsy_edges(g, "self._readState.encContext")
             # rejection flags (`macGood = False`): C02.GATE-STREAM shows they lead only to a raise
             rej = [n for n in g.nodes if n.kind == "stmt" and isinstance(n.ast, ast.Assign)
                    and isinstance(n.ast.value, ast.Constant) and n.ast.value.value is False
